@@ -342,7 +342,8 @@ def wfB (h : Heap) : Bool :=
 
 /-- A step that VIOLATES the contracts (used only in examples, to show that the invariant and the
     isolation theorem are not vacuous): hand out an object whose control points are a *view* of
-    the operand's buffer — what `section()` does in its point case. -/
+    the operand's buffer — the unfixed shape of `section()`'s point case (it returned
+    `self.controlpoints[slices]` without a copy before the fix; the check reports it again should it return). -/
 def aliasView (h : Heap) (i : Nat) : Heap :=
   match h.objs[i]? with
   | none => h
